@@ -50,7 +50,8 @@ def instances(tier, seed):
         atts = ["12", "21", "02", "20", "11", "22"] if th else {"TwoPointLinearSpring": ["12", "02", "22"], "TwoPointLinearDamper": ["21", "20"],
                                                             "TwoPointConstantForce": ["12", "11"]}[el]
         for i, att in enumerate(atts):
-            for t in (trees if th else [trees[i % 2], trees[2 + i % 2]][:2 if i == 0 else 1]):
+            tsel = [trees[(i + j) % len(trees)] for j in (0, 3, 6)] if th else [trees[i % 2], trees[2 + i % 2]][:2 if i == 0 else 1]
+            for t in tsel:
                 out.append(_inst(el, t, att, "law"))
         out.append(_inst(el, TREES2[0], "12", "update"))
     for el in ("ConstantForce", "ConstantTorque"):
@@ -69,13 +70,13 @@ def instances(tier, seed):
     for el in ("MobilityLinearSpring", "MobilityLinearDamper", "MobilityConstantForce"):
         for t, att in (mob if th else mob[:2]):
             out.append(_inst(el, t, att, "law"))
-        for t, att in (mob if th else mob[1:3]):
+        for t, att in (mob[:5] if th else mob[1:3]):
             out.append(_inst(el, t, att, "update"))
-    for piece in ("inside", "upper", "upper-clamped", "lower", "lower-clamped"):
-        for t, att in (mob if th else mob[:2]):
+    for pi, piece in enumerate(("inside", "upper", "upper-clamped", "lower", "lower-clamped")):
+        for t, att in ([mob[(pi + j) % len(mob)] for j in (0, 2, 4)] if th else mob[:2]):
             out.append(_inst("MobilityLinearStop", t, att, "law", piece=piece))
             out[-1]["name"] += "|" + piece
-        for t, att in (mob[:3] if th else mob[2:3]):
+        for t, att in ([mob[pi % 3], mob[3 + pi % 3]] if th else mob[2:3]):
             out.append(_inst("MobilityLinearStop", t, att, "update", piece=piece))
             out[-1]["name"] += "|" + piece
     # LinearBushing
@@ -83,8 +84,9 @@ def instances(tier, seed):
     if th:
         lb += [("Gimbal:0,Pin:1/1", "02"), ("Free:0,Pin:1", "21"), ("Planar:0,Universal:1/1,Pin:1", "23"), ("Gimbal:0,Pin:1/1", "11")]
     for t, att in lb:
-        out.append(_inst("LinearBushing", t, att, "law", bushing=True))
-        out.append(_inst("LinearBushing", t, att, "update", bushing=True))
+        # thorough: 2 base points only (cvc5 cross-checks of the atan2-carrying queries run into their 30 s limit)
+        out.append(_inst("LinearBushing", t, att, "law", bushing=True, base_points=2))
+        out.append(_inst("LinearBushing", t, att, "update", bushing=True, base_points=2, free_coord=False))
     seen, uniq = set(), []
     for i in out:
         if i["name"] not in seen:
@@ -148,8 +150,11 @@ def _u_name(inst):
 def free_sets(inst, tr, tier, rng):
     lin = [n for n, kind, _, _ in tr.inputs if kind == "lin"]
     if inst.get("bushing"):
+        if tier == "thorough" and inst.get("free_coord", True):
+            sets = cat.coordinate_free_sets(inst, tr, tier, rng, always=(), k=1, maxsets=1)
+            return [lin] + [lin + [n for n in s if n not in lin] for s in sets]
         return [lin]
-    sets = cat.coordinate_free_sets(inst, tr, tier, rng, always=())
+    sets = cat.coordinate_free_sets(inst, tr, tier, rng, always=(), maxsets=3 if tier == "quick" else 4)
     return [lin + [n for n in s if n not in lin] for s in sets]
 
 
